@@ -93,7 +93,11 @@ func runC02(c c02Case) (*Violation, string) {
 	// wait for the gated handlers to be running (a request that never arrives is caught by the lost rule below)
 	for i, cc := range c.Callers {
 		if cc.Gate {
-			rig.W.WaitStarted(calls[i].Tok, 3*time.Second)
+			if !rig.W.WaitStarted(calls[i].Tok, 3*time.Second) && !calls[i].Returned() && len(c.Callers) > 100 {
+				// the handlers of the other callers are blocked on purpose: a request that is only delivered once some of
+				// them have finished makes completion order depend on issue order
+				return violf("request-held-back", "%d callers issued their calls together (%s); after 3s the call of caller %d had neither reached its handler nor returned, while %d handlers were running: its delivery waits for other calls to finish", len(c.Callers), c.Transport, i, rig.W.RunningCount()), ""
+			}
 		}
 	}
 	for _, idx := range c.Perm {
@@ -240,7 +244,7 @@ func permutations(n int) [][]int {
 	return out
 }
 
-const c02Rule = "N in 1..12 concurrent callers (barrier start) on one ws client (1/8 of cases: http client); completion order forced by per-token handler gates, strict or burst; response sizes 0..40000 bytes (multi-frame above 4096); ungated callers mixed in; 0-4 delays of 50us-3ms at yield points (request accepted, in-flight registered, response found/delivered, inside write lock, frame read, call dispatch). Grid: every completion permutation for N<=4 (quick) / N<=5 (thorough), each with every yield point delayed in turn (thorough). optionally every client function is first called once with arguments that cannot be marshalled (NaN; those calls must fail locally and leave nothing behind). Non-trivial = N>=2 and (completion order differs from issue order or ungated callers race); distinct by descriptor hash"
+const c02Rule = "N in 1..12 (two grid cases: 130) concurrent callers (barrier start) on one ws client (1/8 of cases: http client); completion order forced by per-token handler gates, strict or burst; response sizes 0..40000 bytes (multi-frame above 4096); ungated callers mixed in; 0-4 delays of 50us-3ms at yield points (request accepted, in-flight registered, response found/delivered, inside write lock, frame read, call dispatch). Grid: every completion permutation for N<=4 (quick) / N<=5 (thorough), each with every yield point delayed in turn (thorough). optionally every client function is first called once with arguments that cannot be marshalled (NaN; those calls must fail locally and leave nothing behind). Non-trivial = N>=2 and (completion order differs from issue order or ungated callers race); distinct by descriptor hash"
 
 func TestC02(t *testing.T) {
 	rec := NewRec("C02", c02Rule)
@@ -284,6 +288,20 @@ func TestC02(t *testing.T) {
 						run(t, c02Case{Transport: "ws", Callers: callers, Perm: perm, Strict: k%2 == 1, Rules: []*HookRule{{Point: pt, Occ: 0, DelayU: 300}}})
 					}
 				}
+			}
+		}
+		if sh == 0 {
+			// many more callers than any per-host connection allowance, finished by the server in the reverse of the order
+			// in which they were issued
+			for _, tr := range []string{"http", "ws"} {
+				n := 130
+				callers := make([]c02Caller, n)
+				perm := make([]int, n)
+				for i := range callers {
+					callers[i] = c02Caller{Gate: true, Kind: "call"}
+					perm[i] = n - 1 - i
+				}
+				run(t, c02Case{Transport: tr, Callers: callers, Perm: perm, Strict: false})
 			}
 		}
 		rec.Exhaustive(false)
